@@ -158,10 +158,13 @@ func (v *Vue) evaluate(ctx VueContext, nodes []*html.Node, depth int) ([]*html.N
 			if err := v.evalVText(ctx, newNode); err != nil {
 				return nil, err
 			}
-			if err := v.evalVShow(ctx, newNode); err != nil {
+			// v-show runs after attribute evaluation so that it sees the final
+			// style attribute (interpolated and merged with :style) and
+			// display:none wins.
+			if _, err := v.evalAttributes(ctx, newNode); err != nil {
 				return nil, err
 			}
-			if _, err := v.evalAttributes(ctx, newNode); err != nil {
+			if err := v.evalVShow(ctx, newNode); err != nil {
 				return nil, err
 			}
 
